@@ -70,6 +70,31 @@ CHECKS = {
          "Trusted: go/types, the evaluator (checker/eval), the oracle tables (checker/oracle). Not decided: strings longer than the evaluated lengths are covered only by the observation that these functions never branch on symbol identity except through the extracted tables."),
 }
 
+# rules added after the second round of independently seeded changes (appended to "decided")
+CMD = " Command layer (Engine D): the command's RunE literal is interpreted under scenarios of flag values (all distinct, all defaults, each boolean on/off incl. an explicit =false, each input unopenable, command-specific option values, each repeated with the library call failing) against a specification over the user-visible flag names: which library function is called, the value in every argument position, every file opened for reading / created-and-truncated / standard stream, failure before any library call for invalid options, and the library's error being RunE's result (deferred calls included)."
+POOL = " Worker pools: for every processor count >= 1 and every --threads value the number of workers started is >= 1, WaitGroup.Add gets the same count, channel capacities are >= 0 (interval analysis over SSA with guard refinement); a channel closed on a completion token is closed only after the goroutines that send on it have finished (WaitGroup membership)."
+EXTRA = {
+ "C01": CMD + POOL + " Arrival-order independence of the two FASTA writers over all 24 arrival orders.",
+ "C02": CMD + POOL + " Arrival-order independence of the pairwise writer over all 24 arrival orders.",
+ "C03": CMD + POOL + " Arrival-order independence of the snps writer.",
+ "C04": CMD + " Only snps may select hard gaps: every encoded FASTA reader call in variants/sam/gff/genbank passes hardGaps=false. Several queries through one getVariantsSam worker give the single-query results. Arrival-order independence of WriteVariants.",
+ "C05": CMD,
+ "C06": CMD + " The scoring reader's completeness score is that of the whole sequence under every line wrapping.",
+ "C07": CMD + " The scoring reader's A/C/G/T counts are those of the whole sequence under every line wrapping; closest reads '-' as any base (hardGaps=false at every reader call).",
+ "C08": CMD + " --ignore is plain membership for every list of <=4 names in file order; FASTA and CSV inputs give the same records on every field the ranking reads; updown reads '-' as any base.",
+ "C09": CMD + " Arrival-order independence of reorderRecords over all 24 arrival orders.",
+ "C10": CMD + " updown reads '-' as any base (hardGaps=false at every reader call); arrival-order independence of the list writer.",
+ "C11": CMD + " Both writers of an entry point get the same reference-record name; the annotation-derived reference has one constant placeholder name in every branch of both entry points; without a window trimAlignment passes the pair unchanged.",
+ "C12": POOL + " What a pool worker emits for a record equals what it emits for that record alone, read after the whole batch (getSNPs, getLines, getVariantsSam, trimAlignment); code reachable from goroutines writes no package-level variable (a necessary condition of race freedom).",
+ "C13": CMD + " Reverse-strand feature: aggregate lines are ordered by position, not residue; both writers get the same reference-record name (the denominator excludes the same record the per-sequence writer skips).",
+ "C14": CMD + " ORIGIN keeps every IUPAC letter; the annotation-derived reference carries the same constant name in the GenBank and the GFF branch.",
+ "C15": CMD,
+ "C16": " Files whose first, middle or last record has no sequence line are rejected by every reader (unequal record lengths); the five readers accept the same maximum line length.",
+ "C17": " The alphabet and encoding functions write no package-level state (purity).",
+ "C18": CMD.replace("Command layer (Engine D): the command's RunE literal is", "Command layer (Engine D): every command's RunE literal is"),
+ "C19": CMD.replace("Command layer (Engine D): the command's RunE literal is", "Command layer (Engine D): every command's RunE literal is") + " Path rule B4: on every path from a write to the next write or to the return, that write's error is examined, returned or sent.",
+}
+
 NOT_YET = "static check for this property not built yet in this session (plan: DESIGN.md section 5); no claim is made"
 
 def main():
@@ -82,6 +107,7 @@ def main():
             na.append({"property_id": pid, "reason": reason})
             continue
         _, technique, decided, note = ent
+        decided = decided + EXTRA.get(pid, "")
         checks.append({
             "property_id": pid,
             "quick_cmd": "./run.sh %s quick" % pid,
